@@ -613,6 +613,8 @@ int disasm_arm(
     n++;
   }
 
+  strcpy(instruction, "???");
+
   return 4;
 }
 
